@@ -120,6 +120,31 @@ spec fn is_associative(op: BinaryOperator) -> bool {
                            doc_operator(e.operator), right_doc_wanted(*expression, *e.e2)]),  // :operands_parenthesised_exactly_as_reparsing_needs
 //@end
 
+// ---- the Unary arm.  The grammar's unary operand is a postfix-level expression (`-` / `!` followed by
+// parse_function_call_or_field_access), so re-parsing needs the operand parenthesised unless it binds
+// tighter than the unary expression itself — in particular a nested unary: `-(-a)`.
+struct Unary {
+  argument: Box<E>,
+}
+uninterp spec fn doc_unary(operand: Document) -> Document;
+/// R3: `Document::Concat(Rc::new(Document::Text(e.operator.kind_str())), Rc::new(operand))`
+#[verifier::external_body]
+fn document_unary(operand: Document) -> (r: Document)
+  ensures r == doc_unary(operand)
+{ unimplemented!() }
+
+//@extractblock crates/samlang-printer/src/source_printer.rs :: fn create_doc_without_preceding_comment
+//@from Document::Concat( Rc::new(Document::Text(e.operator.kind_str())),
+//@to )), )
+//@wrap fn unary_arm(heap: &Heap, comment_store: &CommentStore, expression: &E, e: &Unary) -> (r: Document)
+//@replace Document::Concat( Rc::new(Document::Text(e.operator.kind_str())), => document_unary( ## R3: the operator text in front of the operand document
+//@replace Rc::new(create_doc_for_subexpression_considering_precedence_level( => create_doc_for_subexpression_considering_precedence_level( ## R3: (see previous rule) the operand document is passed directly
+//@replace )), ) => )) ## R3: closing of the replaced Document::Concat(Rc::new(..), Rc::new(..))
+//@contract
+    ensures
+      r == doc_unary(if prec(*e.argument) >= prec(*expression) { doc_paren(doc_of(*e.argument)) } else { doc_of(*e.argument) }),  // :unary_operand_parenthesised_unless_it_binds_tighter
+//@end
+
 proof fn canary_must_fail_paren() ensures false { broadcast use axiom_paren_differs; }
 
 } // verus!
